@@ -4,15 +4,17 @@ PROP = dict(
     title="Wide-integer instructions follow the specification",
     family="alu", harness="alu", run_vo="Run/Alu.vo", quick_shards=12,
     theorems=["C22_op", "C22_reads_be", "C22_writes_dest", "C22_write_then_read", "C22_invalid_imm",
-              "C22_imm_decoders", "C22_read_panics"],
-    open_statements=[
-        "C22_panic_table_full_statement: the exact reason (MemoryOverflow / UninitalizedMemoryAccess / MemoryOwnership) of a failing SECOND/THIRD operand read "
-        "and of a failing destination write as a function of ($sp,$ssp,$hp,stack length) is not stated against an independent memory specification here "
-        "(C22_read_panics covers the first operand, C22_writes_dest characterises a successful write, C22_op carries the write result through `mem_write`); "
-        "the memory rules themselves are properties C23/C24. Exercised on every run by the correspondence (all four reasons occur) and by the oracle's independent memory rules",
-    ],
-    translators=["alutable"],
+              "C22_imm_decoders", "C22_read_panics",
+              "C22_memory_bridge", "C22_read_table", "C22_read_total", "C22_write_table", "C22_write_only_owned",
+              "C22_second_read_panics", "C22_mul_direct_lhs", "C22_third_read_panics", "C22_dest_failure_after_flags",
+              "C22_exec_is_helper"],
+    open_statements=[],
+    translators=["alutable", "vmconsts"],
     trusted_base=[
+        "panic table, memory half: derived from the refusal theorems of C24 (Vm/OwnProofs.v: verify_overflow, verify_uninitialized, verify_ok_iff, "
+        "mem_write_overflow/_uninitialized/_not_owned/_owned) through bridging lemmas (C22_memory_bridge) showing that the ALU model's flat verify / write / "
+        "ownership functions are C24's Vm/OwnModel.v functions; Vm/OwnModel.v itself (flat array of C23 with stack.len() and hp) is tied to the Rust MemoryInstance "
+        "by C23's refinement proof and C23/C24's own correspondence runs, and Gen/VmConsts.v (MEM_SIZE, PanicReason bytes) by tools/gen_vmconsts.py",
         "Alu/AluSpec.v (wide_*_spec, *_imm_spec, be_value): the instruction semantics written from the fuel-specs ISA text (no spec file in the repository)",
         "Alu/AluModel.v: hand-written L1 model of alu/wideint.rs (u128 and U256 instances of wideint_ops!), of the from_imm decoders of fuel-asm/src/args/wideint.rs "
         "and of a flat view of MemoryInstance::{verify, read_bytes, write_bytes} + OwnershipRegisters; tied by correspondence. The little-endian round trips through "
@@ -36,8 +38,9 @@ PROP = dict(
                 "zero divisor, the seven compare modes incl. leading zeros), writes it big-endian to an owned destination and nothing else, advances pc by 4, and that "
                 "the four immediate decoders agree with the specification on all 64 immediates; the model is tied to the Rust code by a translator-generated opcode table "
                 "and a differential single-instruction run on the real interpreter on every check"),
-    level_note=("Partial: the reason of a failing second/third operand read or destination write is carried through the model's memory functions but not proved against "
-                "an independent memory specification (open statement; C23/C24). Trusted: Coq kernel, the spec file, the hand-written model (third-party big-integer "
+    level_note=("The panic table is complete at the level of the model: immediate, each operand read in handler order (first failing access decides: MemoryOverflow / "
+                "UninitalizedMemoryAccess), arithmetic, then the destination (MemoryOverflow / UninitalizedMemoryAccess / MemoryOwnership, checked after $of/$err are set), "
+                "with the memory reasons proved from C24's theorems via bridging lemmas. Trusted: Coq kernel, the spec file, the hand-written model (third-party big-integer "
                 "libraries modelled by their meaning) tied by correspondence testing (testing, not proof), the translator, the harness oracle."),
     technique="Coq proof (model = Z-specification per wide operation, big-endian load/store lemmas, exhaustive immediate sweep) + translator-generated opcode table + differential single-step run + independent big-integer oracle",
     design_ref="6/C22",
